@@ -70,6 +70,7 @@ class Params:
         self.min_procs = 0
         self.probe_rate = 0.0       # debugger probes: PRINT "@@"; <exprs>
         self.dead_code = 0.0        # unreachable statements after END
+        self.nested_exit = 0.3      # EXIT FOR taken inside a nested FOR
         for k, v in kw.items():
             if k == 'features':
                 self.features.update(v)
@@ -1073,8 +1074,34 @@ class Gen:
         self.do_depth = 0
         self.for_depth += 1
         body = self.block(depth - 1)
+        if self.for_depth == 1 and n >= 2 and depth >= 1 and \
+                self.chance(self.p.nested_exit * 0.5):
+            # an inner loop left early by EXIT FOR, with work after it
+            iv = self.new_scalar('%', reserved=True)
+            ilv = A.LV(iv.name, [], [], '%')
+            body.append(A.For(ilv, self.mklit('%', 1), self.mklit('%', 3),
+                              None, [
+                A.Print([A.Str('in'), ';', ilv]),
+                A.IfLine(A.Bin('>=', ilv, self.mklit('%', 2), '%'),
+                         [A.Exit('FOR')], None),
+                A.Print([A.Str('not after exit')])]))
+            body.append(A.Print([A.Str('after inner'), ';',
+                                 A.LV(v.name, [], [], t)]))
+            iv.reserved = False
+            self.note('exit_for_in_nested_for')
         self.for_depth -= 1
         self.do_depth = saved_do
+        if self.for_depth >= 1 and n >= 2 and float(int(a)) == a and \
+                float(int(stepv)) == stepv and \
+                self.chance(self.p.nested_exit):
+            # leave the inner loop in its second iteration
+            second = int(a + stepv)
+            cond = A.Bin('>=' if stepv > 0 else '<=',
+                         A.LV(v.name, [], [], t), self.mk_signed(t, second),
+                         '%')
+            body.insert(self.i(0, len(body)),
+                        A.IfLine(cond, [A.Exit('FOR')], None))
+            self.note('exit_for_in_nested_for')
         v.rng = None
         v.reserved = False
         self.note('for')
